@@ -49,4 +49,14 @@ def planOK (next : Nat → BitVec 64 → Nat) (c to : Cluster) (idx : Index) (re
 def cleaned (next : Nat → BitVec 64 → Nat) (c : Cluster) (self : Id) (idx : Index) : List Frag :=
   idx.locals.filter (fun f => (owners next c idx.name f.shard).contains self)
 
+/-- What a follower must hold after it has processed a ClusterStatus: when the status ends a
+resize (RESIZING -> NORMAL/DEGRADED on a node that is not the coordinator) exactly the local
+fragments of shards it owns under the membership the status announces (the node never forgets
+itself); otherwise everything it held. -/
+def followerFrags (next : Nat → BitVec 64 → Nat) (f : Follower) (cs : Status) : List (List Nat × List Frag) :=
+  let ends := f.coordinator ≠ f.self ∧ f.state = .resizing ∧ (cs.state = .normal ∨ cs.state = .degraded)
+  let final : Cluster := { f.cluster with
+    nodes := if f.cluster.nodes.contains f.self && !cs.nodes.contains f.self then f.self :: cs.nodes else cs.nodes }
+  f.indexes.map (fun ix => (ix.name, if ends then cleaned next final f.self ix else ix.locals))
+
 end PV.C21.Spec
